@@ -2,7 +2,7 @@
 import os, sys, json, random, time
 from . import core, runner
 
-TIERS = {'quick': {'small': 2400, 'random': 9000}, 'thorough': {'small': None, 'random': 400000}}
+TIERS = {'quick': {'small': 4000, 'random': 16000}, 'thorough': {'small': None, 'random': 400000}}
 NVAL = 3
 CHILD_TIMEOUT = 60.0
 
